@@ -48,6 +48,7 @@ type report struct {
 	Traces        int                      `json:"traces"`
 	TraceEvents   int                      `json:"trace_events"`
 	Samples       []map[string]interface{} `json:"samples"`
+	Foreign       []string                 `json:"foreign_queries,omitempty"`
 	Inconclusive  string                   `json:"inconclusive,omitempty"`
 	WallS         float64                  `json:"wall_s"`
 }
@@ -222,11 +223,11 @@ func drive(args []string, random bool) int {
 		}
 	}
 	daemonIdx := 0
-	const rounds = 4
+	const rounds = 5
 	for round := 0; round < rounds; round++ {
 		size, p := *batch, *par
-		if round > 0 { // retries: calmer
-			size, p = *batch/4+1, *par/2+1
+		if round > 0 { // retries: calmer and calmer
+			size, p = *batch/(4*round)+1, *par/(2*round)+1
 		}
 		batches := mkBatches(jobsByPol, size)
 		if len(batches) == 0 {
@@ -258,11 +259,13 @@ func drive(args []string, random bool) int {
 				R.Daemons++
 				mu.Unlock()
 				var bw sync.WaitGroup
-				for _, j := range bt.jobs {
+				for k, j := range bt.jobs {
 					j := j
 					bw.Add(1)
+					delay := time.Duration(k) * 3 * time.Millisecond // no thundering herd on one daemon
 					go func() {
 						defer bw.Done()
+						time.Sleep(delay)
 						prefix := fmt.Sprintf("b%06da%d", j.b.id, j.attempt)
 						last := round == rounds-1
 						r := runBehaviour(d, j.b, prefix, random, !last)
@@ -292,9 +295,17 @@ func drive(args []string, random bool) int {
 				}
 				bw.Wait()
 				if d.Stub != nil && d.Stub.Unknown > 0 {
+					// a query carrying a secret none of this run's connections sent.  One of ours (b<id>a<attempt>)
+					// would be nsqd inventing a query; anything else is another process on this machine that was
+					// pointed at a port the stub happened to get.
 					mu.Lock()
-					R.Drift = append(R.Drift, fmt.Sprintf("policy %s: %d auth queries with a secret no connection sent: %v", pol.Key(), d.Stub.Unknown, d.Stub.UnknownSample))
-					R.DriftCount++
+					msg := fmt.Sprintf("policy %s: %d auth queries with a secret no connection of this daemon sent: %v", pol.Key(), d.Stub.Unknown, d.Stub.UnknownSample)
+					if d.Stub.UnknownOurs > 0 {
+						R.Drift = append(R.Drift, msg)
+						R.DriftCount++
+					} else {
+						R.Foreign = append(R.Foreign, msg)
+					}
 					mu.Unlock()
 				}
 				d.Stop()
